@@ -34,6 +34,9 @@ TDropIdx    == Is("dropidx")    /\ DropIndex(Ev.c, Ev.n)
 TCreateSort == Is("createsort") /\ CreateSort(Ev.c, Ev.n, Ev.col)
 TCreateTrig == Is("createtrig") /\ CreateTrigger(Ev.c, Ev.n, Ev.col)
 TDropTrig   == Is("droptrig")   /\ DropTrigger(Ev.c, Ev.n)
+TDrop       == Is("drop")       /\ Drop(Ev.c)
+TRes        == Is("res")        /\ ResProbe(Ev.fds, Ev.tmp)
+TLogEnd     == Is("logend")     /\ UNCHANGED vars
 TTransport  == Is("transport")  /\ SetTransport(Ev.c, Ev.tp)
 
 TBulkIns    == Is("bulkins")    /\ BulkInsert(Ev.c, Ev.lo, Ev.hi, Ev.ids)
@@ -172,7 +175,7 @@ ReadBackDiag ==
 InvDiag == ReadBack \/ PrintT(<<"READBACK", ReadBackDiag, dev>>)
 Diag == IF Ev.e = "dump" THEN DumpDiag ELSE IF Ev.e = "apply" THEN ApplyDiag ELSE <<"event", Ev, "txn", txn>>
 
-TNext == \/ TReset \/ TCreateCol \/ TCreateIdx \/ TDropIdx \/ TCreateSort \/ TCreateTrig \/ TDropTrig \/ TTransport
+TNext == \/ TReset \/ TDrop \/ TRes \/ TLogEnd \/ TCreateCol \/ TCreateIdx \/ TDropIdx \/ TCreateSort \/ TCreateTrig \/ TDropTrig \/ TTransport
          \/ TBulkIns \/ TBulkDel \/ TBulkReplay
          \/ TBegin \/ TSel \/ TReserve \/ TInsFail \/ TWrite \/ TDelete \/ TDelMiss \/ TKDelete \/ TKeyCheck \/ TKeyEnd \/ TRollback \/ TCommitStart
          \/ TApply \/ TAfter \/ TSnap \/ TRestore \/ TReplay \/ TRead \/ TDump
